@@ -119,13 +119,15 @@ func (l *maximumWaitVehicleConstraintImpl) EstimateIsViolated(
 			stopPositionsCount--
 		}
 
-		// The rest of the route keeps its schedule once the arrival at a planned
-		// stop is unchanged, but its accumulated wait shifts by the wait picked
-		// up so far: only stop when that did not grow.
+		// The rest of the route keeps its schedule once the arrival at and the
+		// end of a planned stop are unchanged (the time spent at a stop can
+		// depend on the stop in front of it), but its accumulated wait shifts
+		// by the wait picked up so far: only stop when that did not grow.
 		if !isDependentOnTime &&
 			stopPositionsCount == 0 &&
 			to.IsPlanned() &&
 			arrival == to.ArrivalValue() &&
+			previousEnd == to.EndValue() &&
 			accumulatedWait <= to.Previous().ConstraintData(l).(*maximumWaitVehicleConstraintData).accumulatedWait {
 			break
 		}
